@@ -503,3 +503,73 @@ Proof.
   repeat split; try lia; try (apply d2_digits; lia); try (apply d2_value; lia);
     try (apply d4_digits; lia); try (apply d4_value; lia).
 Qed.
+
+(* ---------------------------------------------------------------------------------------------------- *)
+(* beyond the property's range: every integer day count, and totality on i64 *)
+Definition to_cdate (r : Z * Z * Z) : cdate := let '(y, m0, d) := r in mkC y (m0 + 1) d.
+
+Lemma date_part_canonical : forall D,
+  exists Y rd yi m0 d, 0 <= rd < ylen Y /\ D = mdays Y + rd /\ month_day rd = Ok (yi, m0, d) /\
+                       date_part D = Ok (Y + yi, m0, d) /\ 0 <= m0 <= 11 /\ 1 <= d <= 31.
+Proof.
+  intros D. pose proof (year_day_spec D) as YS. unfold date_part.
+  destruct (year_day D) as [Y rd]. destruct YS as [Hrd HD].
+  pose proof (ylen_pos Y) as YL.
+  destruct (month_day_range rd ltac:(lia)) as [yi [m0 [d [E [Hm [Hd Hyi]]]]]].
+  exists Y, rd, yi, m0, d. rewrite E. repeat split; try assumption; lia.
+Qed.
+
+(* for EVERY integer day count D (negative = before 2000-03-01, no upper bound), one more day is next_day *)
+Lemma date_part_step : forall D,
+  exists r r', date_part D = Ok r /\ date_part (D + 1) = Ok r' /\ to_cdate r' = next_day (to_cdate r).
+Proof.
+  intros D.
+  destruct (date_part_canonical D) as [Y [rd [yi [m0 [d [Hrd [HD [Hmd [Hdp _]]]]]]]]].
+  destruct (date_part_canonical (D + 1)) as [Y' [rd' [yi' [m0' [d' [Hrd' [HD' [Hmd' [Hdp' _]]]]]]]]].
+  exists (Y + yi, m0, d), (Y' + yi', m0', d'). split; [exact Hdp|]. split; [exact Hdp'|].
+  pose proof (step_ok_all (is_leap Y) (is_leap (Y + 1)) rd) as HS. unfold ylen in Hrd.
+  specialize (HS Hrd). unfold step_ok in HS. rewrite Hmd in HS.
+  apply andb_true_iff in HS. destruct HS as [Hyi HS].
+  assert (Hyi' : yi = 0 \/ yi = 1) by (apply orb_true_iff in Hyi; rewrite !Z.eqb_eq in Hyi; exact Hyi).
+  change (to_cdate (Y + yi, m0, d)) with (shift Y (yi, m0, d)).
+  change (to_cdate (Y' + yi', m0', d')) with (shift Y' (yi', m0', d')).
+  rewrite (next_day_shift Y yi m0 d Hyi').
+  destruct (rd + 1 <? (if is_leap (Y + 1) then 366 else 365)) eqn:E.
+  - destruct (canonical_unique Y (rd + 1) Y' rd' ltac:(unfold ylen; lia) Hrd' ltac:(lia)) as [EY Er]. subst Y' rd'.
+    rewrite Hmd' in HS. apply eq3_eq in HS. rewrite HS. reflexivity.
+  - pose proof (ylen_pos (Y + 1)) as YL.
+    destruct (canonical_unique (Y + 1) 0 Y' rd' ltac:(lia) Hrd'
+                ltac:(rewrite mdays_succ; unfold ylen at 1; lia)) as [EY Er]. subst Y' rd'.
+    rewrite Hmd' in HS. apply eq3_eq in HS. rewrite HS. unfold shift. f_equal. lia.
+Qed.
+
+Lemma date_part_anchor : date_part (-11017) = Ok (1970, 0, 1) /\ date_part 0 = Ok (2000, 2, 1).
+Proof. vm_compute. split; reflexivity. Qed.
+
+(* no panic for any i64 timestamp except the subtraction overflow, and to_string never indexes out of range *)
+Lemma from_timestamp_total : forall t, i64_min <= t <= i64_max ->
+  (t < i64_min + MARCH_01_2000 /\ from_timestamp t = Crash 1) \/
+  (i64_min + MARCH_01_2000 <= t /\ exists d s, from_timestamp t = Ok d /\ to_string d = Ok s /\
+     0 <= dt_month d <= 11 /\ 0 <= dt_weekday d <= 6).
+Proof.
+  intros t Ht. unfold from_timestamp, i64_min, i64_max in *.
+  replace MARCH_01_2000 with 951868800 by reflexivity.
+  destruct (Z_lt_ge_dec t (-9223372036854775808 + 951868800)) as [L|G].
+  - left. split; [exact L|].
+    assert (E : in_i64 (t - 951868800) = false).
+    { unfold in_i64, i64_min. apply andb_false_iff. left. apply Z.leb_gt. lia. }
+    rewrite E. reflexivity.
+  - right. split; [lia|].
+    assert (E : in_i64 (t - 951868800) = true).
+    { unfold in_i64, i64_min, i64_max. apply andb_true_iff. rewrite !Z.leb_le. lia. }
+    rewrite E. cbn [negb]. rewrite split_time_spec.
+    destruct (date_part_canonical ((t - 951868800) / 86400)) as [Y [rd [yi [m0 [d [_ [_ [_ [Hdp [Hm Hd]]]]]]]]]].
+    rewrite Hdp.
+    set (w := weekday_of ((t - 951868800) / 86400)).
+    assert (Hw : 0 <= w <= 6) by (subst w; rewrite weekday_of_spec; lia).
+    eexists. eexists. split; [reflexivity|].
+    unfold to_string. cbn [dt_weekday dt_month].
+    unfold as_u8. rewrite (Z.mod_small w) by lia. rewrite (Z.mod_small m0) by lia.
+    rewrite (days_table_rfc w Hw), (months_table_rfc m0 Hm).
+    split; [reflexivity|]. lia.
+Qed.
